@@ -180,7 +180,8 @@ ScalarArith(op, a, b) ==
              ELSE IF ~SafeFor(op, x, y) THEN EAny
              ELSE LET r == QOp(op, x, y)
                       kind == ResultKind(op, a, b)
-                  IN IF kind = "num" THEN EVal(NumQ(r))
+                  IN IF r.d > 100000 THEN EAny     \* beyond what a recorded float can be snapped onto
+                     ELSE IF kind = "num" THEN EVal(NumQ(r))
                      ELSE [k |-> "ser", q |-> r, kind |-> kind]
 
 RECURSIVE ArithExpect(_, _, _)
